@@ -80,6 +80,9 @@ func genC07(t *rapid.T) *c07Case {
 	sc.Choices = rapid.SliceOfN(rapid.IntRange(0, 7), 1, 12).Draw(t, "choices")
 	sc.RaceStats = rapid.Bool().Draw(t, "race")
 	sc.Tail = "echo"
+	if rapid.IntRange(0, 3).Draw(t, "trailing") == 0 {
+		sc.Trailing = rapid.IntRange(1, 4).Draw(t, "ntrailing")
+	}
 	if rapid.IntRange(0, 5).Draw(t, "eof") == 0 {
 		sc.Tail = "eof"
 		sc.EOFAfter = rapid.IntRange(0, 2*len(c.Tree.Nodes)+2).Draw(t, "eofafter")
@@ -301,6 +304,24 @@ func c07Check(env *h.Env, c *c07Case) error {
 	}
 	if finSeq == 0 {
 		return fmt.Errorf("Receive returned success without sending FIN")
+	}
+	// "then reads to end of stream": whatever the sender still sent after its FIN
+	// echo was taken off the stream before the call returned
+	if c.Script.Trailing > 0 && c.Script.Tail == "echo" {
+		env.Class("packets-after-fin-echo")
+		delivered, finEchoSeen := 0, false
+		for _, r := range h.From(pair.Log(), "S") {
+			if r.Type == "FIN" {
+				finEchoSeen = true
+				continue
+			}
+			if finEchoSeen && r.Delivered != 0 {
+				delivered++
+			}
+		}
+		if delivered != c.Script.Trailing {
+			return fmt.Errorf("Receive returned success after reading %d of the %d packets the sender sent between its FIN echo and the end of the stream", delivered, c.Script.Trailing)
+		}
 	}
 	// final content: exactly the concatenation of the payloads, unchanged files untouched
 	after, err := h.Snapshot(dstDir)
